@@ -30,3 +30,6 @@ func VerifHTTP(kind int, key string) thrift.HttpMapping {
 	}
 	panic("VerifHTTP: unknown kind")
 }
+
+// VerifJSConv is the value-mapping object built for `api.js_conv`.
+func VerifJSConv() thrift.ValueMapping { return apiJSConv{} }
